@@ -128,7 +128,8 @@ export function genFileSet(rng, opts = {}) {
   }
   const defs = []
   for (const name of defNames) {
-    const dctx = new GenCtx({ dataNames: ['a', 'b', 'c'], moduleNames, maxDepth: 1, defNames: defs.map((d) => d.name), allowSlot: false, families: (opts.families || M.FAMILIES).filter((f) => f !== 'change'), noCall: opts.noCall, exprCtx: { ctors: null }, safeLists: opts.safeLists })
+    // (`length` would be visible if the sub-template were run on a string instead of an object)
+    const dctx = new GenCtx({ dataNames: ['a', 'b', 'c', 'length'], moduleNames, maxDepth: 1, defNames: defs.map((d) => d.name), allowSlot: false, families: (opts.families || M.FAMILIES).filter((f) => f !== 'change'), noCall: opts.noCall, exprCtx: { ctors: null }, safeLists: opts.safeLists })
     defs.push({ name, children: M.genNodes(rng, dctx, 1, 3) })
   }
   const ctx = new GenCtx({ moduleNames, maxDepth: opts.maxDepth ?? 3, defNames, includes, allowSlot: opts.allowSlot ?? true, families: opts.families, tags: opts.tags, noCall: opts.noCall, exprCtx: opts.exprCtx, safeLists: opts.safeLists, slotReceivers: opts.slotReceivers })
